@@ -1,8 +1,11 @@
-import AlgoVerif.Common
-/-! Line-protocol component for C03 — not built yet. -/
+import AlgoVerif.Driver.C02
+/-!
+Line-protocol component for C03: the same Models, operations and rendering as C02 (the C03 streams
+add `probes k` observations and long churn histories; `hang` is the rendering of `Outcome.diverge`).
+-/
 namespace AlgoVerif.C03.Driver
 
-def runCase (_hdr : List String) (ops : List String) : List String :=
-  ops.map fun _ => "bad-case"
+def runCase (hdr : List String) (ops : List String) : List String :=
+  AlgoVerif.C02.Driver.runCase hdr ops
 
 end AlgoVerif.C03.Driver
